@@ -541,17 +541,17 @@ Qed.
 Module C07Example.
   Definition cl1 : client :=
     mkClient 1 false [GAuthorizationCode] ["code"] ["https://c1.example/cb"] "openid email" CibaNone
-             false false false false false false false 0 false.
+             false false false false false false false 0 false None.
   Definition cfg : config :=
     match build PFapi2 [WithAuthorizationCodeGrant; WithJAR; WithPAR 60%Z] with Some c => c | None => base_config PFapi2 end.
   Definition w : world := mkWorld cfg [cl1].
   Definition jx : jworld := mkJWorld (mkJCfg [AES256] false [AES256] 0%Z) [(1, mkJClient [mkJwk 611 AES256 511] None None)].
-  Definition inner : params := mkParams 0 "https://c1.example/cb" "" "code" "openid" "st-in" "n-in" PkEmpty "" 0 "" 0 "" [].
+  Definition inner : params := mkParams 0 "https://c1.example/cb" "" "code" "openid" "st-in" "n-in" PkEmpty "" 0 "" 0 "" [] None.
   Definition obj : req_object :=
     mkRO EncNone (SigBy 511) AES256 611 1 true (Some 300%Z) (Some (-10)%Z) (Some (-10)%Z) true 1 false false inner.
   Definition q (outer : params) : jareq := mkJAReq (mkAReq 1 outer true PolInProgress) (JValue obj).
   Definition outer1 : params := empty_params.
-  Definition outer2 : params := mkParams 0 "" "" "code" "openid" "st-out" "n-out" PkEmpty "" 0 "" 0 "" [].
+  Definition outer2 : params := mkParams 0 "" "" "code" "openid" "st-out" "n-out" PkEmpty "" 0 "" 0 "" [] None.
 
   Example object_accepted : resolve_jar PFapi2 (jx_cfg jx) 1 (jclient_of (jx_clients jx) 1) obj = inr (contents obj).
   Proof. vm_compute. reflexivity. Qed.
